@@ -94,6 +94,17 @@ var c11shapes = []c11shape{
 		g.Wrap(g.Split("parallelGateway", "parallelGateway", "", []eng.Frag{a, b}, nil, -1))
 		return nil
 	}},
+	// two START EVENTS instead of a fork: both fire when the instance starts, each token runs to its own catch event
+	{name: "twostarts", par: true, arm: 2, evs: []c11ev{sigA, msgB, sigZ}, build: func(g *eng.Graph) map[string]int {
+		a := g.Seq(c11task(g, "TA"), c11catch(g, "C1", sigA), c11task(g, "UA"))
+		b := g.Seq(c11task(g, "TB"), c11catch(g, "C2", msgB), c11task(g, "UB"))
+		g.Wrap(a)
+		st := g.Add("startEvent", "start2", "")
+		en := g.Add("endEvent", "end2", "")
+		g.Connect(st, b.Entry, nil)
+		g.Connect(b.Exit, en, nil)
+		return nil
+	}},
 	{name: "par2same", par: true, evs: []c11ev{sigA, sigZ}, build: func(g *eng.Graph) map[string]int {
 		a := g.Seq(c11task(g, "TA"), c11catch(g, "C1", sigA), c11task(g, "UA"))
 		b := g.Seq(c11task(g, "TB"), c11catch(g, "C2", sigA), c11task(g, "UB"))
